@@ -8,6 +8,7 @@ CONSTANTS
   ChunkPts = {}
   ResetChoices <- RepairedOnly
   TamperTags <- AllTags
+  CacheChoices = {"none"}
   Concurrent = FALSE
   RecordHist = FALSE
 INVARIANTS TypeOK Agreement SuccessSound MutualGating ReplayRejected FaultNeverSuccess NoFaultClean Completeness PoolAccounting PoolClean
